@@ -61,6 +61,8 @@ def check(run):
     _r3(run, mods['adf15'])
     _r4(run, mods)
     _r5(run, mods)
+    from ..cachekey import check_caches
+    check_caches(run, list(mods.values()) + [inst], 'C08-K')
 
 
 def _resolver(prog):
